@@ -76,6 +76,7 @@ func init() {
 func runC24(c *Ctx) {
 	c24FetchedChains(c)
 	keyIDAgreement(c, "K1-key-id-agreement")
+	c38EveryElementFed(c, "F2-every-element-is-fed")
 	psT := "(*pkg/segment.PathSegment)"
 	// A1: sibling agreement on associated data
 	if v := c.View(psT + ".AddASEntry"); v != nil {
